@@ -30,12 +30,32 @@ class Minimiser:
         r = self.pool.call({"profile": self.profile, "seed": self.seed, "tier": self.tier,
                             "replay": {"params": params, "steps": steps}}, h)
         ok = None
-        if not r.get("harness_error"):
+        if self.oracle.endswith("depends_on_hash_seed"):
+            ok = self.hash_pair(r, params, steps, h)
+        elif not r.get("harness_error"):
             v = r.get("violations") or []
             if v and v[0]["oracle"] == self.oracle:
                 ok = r
         self.cache[key] = ok
         return ok
+
+    def hash_pair(self, r, params, steps, h):
+        """Failure class 'observation log differs between two hash seeds': replay under the other seed too."""
+        other = self.res["violations"][0]["detail"].get("hash_seed_b", "0")
+        if r.get("harness_error") or r.get("violations") or r.get("obslog") is None:
+            return None
+        r2 = self.pool.call({"profile": self.profile, "seed": self.seed, "tier": self.tier,
+                             "replay": {"params": params, "steps": steps}}, int(other))
+        if r2.get("harness_error") or r2.get("violations") or r2.get("obslog") is None:
+            return None
+        if r["obslog"] == r2["obslog"]:
+            return None
+        idx = next((i for i, (a, b) in enumerate(zip(r["obslog"], r2["obslog"])) if a != b), None)
+        out = dict(r)
+        out["violations"] = [{"oracle": self.oracle, "step": idx,
+                              "detail": {"hash_seed_a": str(h), "hash_seed_b": str(other), "first_differing_call": idx,
+                                         "tag": r["obslog"][idx][0] if idx is not None else None}}]
+        return out
 
     def run(self):
         params = dict(self.res["params"])
@@ -45,7 +65,7 @@ class Minimiser:
         if best is None:
             return None   # does not even reproduce: caller reports the original, flagged
         # 1. plainest parameters
-        if h != 0:
+        if h != 0 and not self.oracle.endswith("depends_on_hash_seed"):
             r = self.replay(params, steps, 0)
             if r:
                 h, best = 0, r
